@@ -18,7 +18,15 @@ From V Require Import Base.UString Model.Store Model.StoreRun Model.StoreCases S
 Import ListNotations.
 Open Scope list_scope.
 
-(* memory store: no addition raises; get / all_versions / the queried population refine the list; query = filter *)
+(* memory store: no addition raises; get / all_versions / the queried population refine the list.
+   NOTE the last conjunct (query = filter of the stored population) is DEFINITIONAL in the model (it is the body
+   of mem_query, i.e. MemorySource.query's `apply_common_filters(all_objs, query)`); the content about queries is
+   r_stored_sound / r_stored_complete / r_stored_distinct of `refines`: the population the filter runs over holds
+   only added objects, every (id, version) added, each once.
+   DOMAIN: `clean` admits `modified` as an instant or absent.  Under mode = TextOrder (the code as it is) norm_obj is
+   the identity, so dictionary-kept content WITH a `modified` (text) is outside this theorem: for the pinned
+   variant it covers registered-class objects and dictionary-kept content without `modified`; under mode = Chrono
+   (the repaired reading) timestamp text is inside (latest_text_chrono, chrono_domain_inhabited). *)
 Theorem mem_refines : forall mode iot (L : list obj),
   let NL := map (norm_obj mode iot) L in
   Forall clean NL -> uniform NL ->
@@ -97,7 +105,8 @@ Theorem no_silent_loss_filesystem : forall mode iot ts2fn, (forall a b : Z, ts2f
 Proof. exact no_silent_loss_fs. Qed.
 Print Assumptions no_silent_loss_filesystem.
 
-(* save_to_file, then load_from_file into a fresh store: same population, same lookups *)
+(* save_to_file, then load_from_file into a fresh store: same population; lookups present for the same ids and
+   returning the same newest VERSION (with re-additions the copy may differ: readd_difference); see save_load_exact *)
 Theorem save_load : forall mode iot (L : list obj),
   let NL := map (norm_obj mode iot) L in
   Forall clean NL -> uniform NL ->
@@ -107,6 +116,18 @@ Theorem save_load : forall mode iot (L : list obj),
     (forall id o2 o, mem_get [] id m2 = Some o2 -> mem_get [] id (mem_run mode iot L) = Some o -> omod o2 = omod o).
 Proof. exact save_load_thm. Qed.
 Print Assumptions save_load.
+
+(* ... and when no (id, modified) was added twice: the SAME object for every lookup, the same versions, the same
+   population *)
+Theorem save_load_exact : forall mode iot (L : list obj),
+  let NL := map (norm_obj mode iot) L in
+  Forall clean NL -> uniform NL -> NoDup (map vkey_of NL) ->
+  exists m2, mem_load_saved mode iot (mem_run mode iot L) [] = (m2, None) /\
+    (forall id, mem_get [] id m2 = mem_get [] id (mem_run mode iot L)) /\
+    (forall id, Permutation (mem_all [] id m2) (mem_all [] id (mem_run mode iot L))) /\
+    Permutation (mem_objs m2) (mem_objs (mem_run mode iot L)).
+Proof. exact save_load_exact_thm. Qed.
+Print Assumptions save_load_exact.
 
 (* input forms: a history of add() calls in any forms (objects, dictionaries, lists, nested lists, bundles) is
    the history of the objects they hand over before the first refused item *)
